@@ -5,9 +5,10 @@ Property theorems only. Model and spec: KinModel/Gen3.lean; helper lemmas and th
 
 Full-strength statement (the property), for every option set `o`:
     genRoot Δ o fuel t = (.ok s, σ) → LoopResult σ Γ → HasType Δ v t → encode Δ t v ≠ .null →
-      Sat Γ s (encode Δ t v) ∧ Resolves Γ s          and          ∃ fuel, (genRoot Δ o fuel t).1 ≠ .nofuel ∧ ≠ .diverge
-The code deviates in six classes, each with a kernel-checked witness below:
-    NilAtCycle (DESIGN §7 #19), HasQuoted (#32), DupNames, Dangling, WrongComponent, RecContainer (round 3).
+      Sat Γ s (encode Δ t v) ∧ Resolves Γ s          and          ∃ fuel, (genRoot Δ o fuel t).1 ≠ .nofuel
+The code deviates in five classes, each with a kernel-checked witness below:
+    NilAtCycle (DESIGN §7 #19), HasQuoted (#32), DupNames, Dangling, WrongComponent (round 3).
+Repaired (regression theorem below): RecContainer (F-C18-6, 0916db1).
 -/
 import KinModel.Lemmas.C18Dang
 import KinModel.Gen.GenKinds
@@ -147,6 +148,15 @@ theorem gen_sound_default (Δ : Decls) (o : Opts) (ho : o.tng = none ∧ o.exp =
   exact gen_sound_partial Δ o fuel t s σ Γ v hg (tnInj_none Δ o ho.1) hl
     (gen_no_dangling_default Δ o ho fuel t s σ hg ha) hw hv hnn hq hd hn
 
+/-- Under the default option set `WrongComponent` (F-C18-5) is the ghost flag alone — a cycle cut at an anonymous
+struct — provided no component is named "" (the name all anonymous structs are stored under; decidable on the outcome):
+every stored entry is keyed by the Go name of its own type. The other two forms of F-C18-5 need ExportComponentSchemas. -/
+theorem gen_wrong_component_default (Δ : Decls) (o : Opts) (ho : o.tng = none ∧ o.exp = false ∧ o.cust = false)
+    (fuel : Nat) (t : GoType) (s : Sch) (σ : St) (hg : genRoot Δ o fuel t = (.ok s, σ)) (he : "" ∉ σ.comps) :
+    WrongComponent o σ ↔ σ.anon = true := by
+  unfold WrongComponent
+  rw [default_wrong_iff_anon Δ o ⟨ho.1, ho.2.1, ho.2.2⟩ fuel t σ (.ok s) hg he]
+
 /-- The injectivity hypothesis of `gen_sound_partial` holds outright for the usual type-name generators: none, and
 "prefix + Go name"; for a generator with an exception table it is the decidable check `tnInj_of_check`. -/
 theorem type_names_injective (Δ : Decls) (o : Opts) (h : o.tng = none ∨ ∃ p, o.tng = some ⟨p, []⟩) :
@@ -156,14 +166,15 @@ theorem type_names_injective (Δ : Decls) (o : Opts) (h : o.tng = none ∨ ∃ p
   · exact tnInj_prefix Δ o p h
 
 /-- **"Schemas generated for recursive types are finite"** — the generator terminates on every type graph, for every
-option set: with `enoughFuel Δ t` fuel (a bound computed from the declarations: along the parent chain every declared
-struct is entered at most once; between two declared structs the recursion descends into the type) the model never
-runs out of fuel, and it never reports `diverge` (generateCycleSchemaRef recursing forever, a fatal stack overflow in
-Go) unless the type contains a self-recursive container type `type L []L` / `type M map[string]M` (`RecContainer`,
-finding F-C18-6, witness below). No hypothesis on the declarations: cyclic, mutually recursive, undeclared names. -/
+option set, at full strength: with `enoughFuel Δ t` fuel (a bound computed from the declarations: along the parent
+chain every declared struct is entered at most once; between two declared structs the recursion descends into the
+type) the model never runs out of fuel, and running out of fuel is the only way it can fail to return: since the repair
+of F-C18-6 (0916db1) generateCycleSchemaRef is structurally recursive (`cycleSch` is a total function; it gives a
+container met again below itself an unconstrained schema). No hypothesis on the declarations or the type: cyclic,
+mutually recursive, undeclared names, `type L []L`. -/
 theorem gen_finite (Δ : Decls) (o : Opts) (t : GoType) (fuel : Nat) (h : enoughFuel Δ t ≤ fuel) :
-    (genRoot Δ o fuel t).1 ≠ .nofuel ∧ (¬ RecContainer Δ t → (genRoot Δ o fuel t).1 ≠ .diverge) :=
-  ⟨gen_enough_fuel Δ o t fuel h, fun hr => gen_no_diverge Δ o t hr fuel⟩
+    (genRoot Δ o fuel t).1 ≠ .nofuel :=
+  gen_enough_fuel Δ o t fuel h
 
 /-! ### the tables read off the source (regenerated by every run: go/cmd/extract, table GenKinds) -/
 
@@ -355,13 +366,18 @@ theorem witness_wrong_component :
     acceptB [("A", sB), ("B", sB)] sA (encode ΔAB (.named "A") vAB) = false := by
   refine ⟨by rfl, by rfl, by decide, by decide, by decide, by decide⟩
 
-/-- Finding F-C18-6: on `type L []L` generateCycleSchemaRef never returns (in Go: fatal stack overflow), whatever
-the fuel; with ThrowErrorOnCycle the generator returns the cycle error instead. -/
-theorem witness_rec_container :
-    (∀ fuel, 3 ≤ fuel → (genRoot [] o0 fuel (.recs false)).1 = .diverge) ∧
-    RecContainer [] (.recs false) ∧ HasType [] (.slice [.slice [], .slice []]) (.recs false) ∧
+/-- Regression for F-C18-6 (repaired by 0916db1): on `type L []L` generateCycleSchemaRef used to recurse forever (a
+fatal stack overflow in Go). Now the element of the cycle reference is unconstrained: the schema is
+`{type: array, items: {type: array, items: {}}}`, no component is registered, every encoding is accepted; likewise for
+`type M map[string]M`. -/
+def sL : Sch := .node "array" false "" none none (some (arrWrap emptySch)) [] none false
+theorem regression_rec_container :
+    (∀ fuel, 3 ≤ fuel → genRoot [] o0 fuel (.recs false) = (.ok sL, { cache := [(.recs false, sL)], trace := ["cycle.cut"] })) ∧
+    HasType [] (.slice [.slice [], .slice [.slice []]]) (.recs false) ∧
+    acceptB [] sL (encode [] (.recs false) (.slice [.slice [], .slice [.slice []]])) = true ∧
+    (genRoot [] o0 10 (.recs true)).1 = .ok (.node "object" false "" none none none [] (some (mapWrap emptySch)) false) ∧
     (genRoot [] { throwCycle := true } 10 (.recs false)).1 = .cycle := by
-  refine ⟨?_, by decide, by decide, by rfl⟩
+  refine ⟨?_, by decide, by decide, by rfl, by rfl⟩
   intro fuel h
   obtain ⟨k, rfl⟩ : ∃ k, fuel = k + 3 := ⟨fuel - 3, by omega⟩
   rfl
